@@ -97,6 +97,12 @@ func c08ExtractCase(a vh.Args, r *vh.Result, c *c08Case) error {
 		old = []byte("previous content of the destination")
 		os.WriteFile(out, old, 0644)
 	}
+	// in place: the target does not exist yet (the first download, what -k is documented for) or is empty
+	emptyTarget := inplace && c.Seed%2 == 1
+	if emptyTarget {
+		os.WriteFile(out, nil, 0644)
+	}
+	r.Dist(fmt.Sprintf("%s-target:%s", c.Kind, map[bool]string{true: "empty", false: map[bool]string{true: "existing", false: "absent"}[preExisting]}[emptyTarget]))
 	run := func(killAt int) (string, error) {
 		args := []string{"extract", "-s", url, "-n", fmt.Sprint(c.N)}
 		if inplace {
@@ -172,8 +178,23 @@ func c08ExtractCase(a vh.Args, r *vh.Result, c *c08Case) error {
 		}
 		return nil
 	}
-	// in place: which chunks are already right in the killed run's file?
-	cur, _ := os.ReadFile(out)
+	// in place: the partially written target must be there after the kill ...
+	ks.mu.Lock()
+	answered := len(ks.requests) - 1 // the request that triggered the kill was not answered
+	ks.mu.Unlock()
+	if !killed {
+		answered = len(idx.Chunks)
+	}
+	cur, rerr := os.ReadFile(out)
+	if killed && rerr != nil {
+		fail("extract/inplace-target-missing", fmt.Sprintf("in-place extract killed at request %d (%d chunks had been served): the target does not exist afterwards (%v), so nothing can be re-used", c.K, answered, rerr))
+	}
+	for _, e := range ents {
+		if strings.HasPrefix(e.Path, ".out") {
+			fail("extract/inplace-uses-temp-file", "in-place extract wrote into a temp file next to the target: "+e.Path)
+		}
+	}
+	// ... and which chunks are already right in it?
 	have := map[string]bool{}
 	nvalid := 0
 	for _, ch := range idx.Chunks {
@@ -208,6 +229,11 @@ func c08ExtractCase(a vh.Args, r *vh.Result, c *c08Case) error {
 	if len(reqs) > len(idx.Chunks)-nvalid {
 		fail("extract/inplace-refetches", fmt.Sprintf("re-run issued %d requests for %d missing chunks", len(reqs), len(idx.Chunks)-nvalid))
 	}
+	// independent of what the file shows: of the chunks served before the kill at most n were still being
+	// written, so the re-run may ask for at most total - served + n chunks
+	if allowed := len(idx.Chunks) - answered + c.N; killed && len(reqs) > allowed {
+		fail("extract/inplace-refetches", fmt.Sprintf("in-place extract killed after %d of %d chunks had been served (n=%d): the re-run requested %d chunks, at most %d are missing", answered, len(idx.Chunks), c.N, len(reqs), allowed))
+	}
 	return nil
 }
 
@@ -216,18 +242,21 @@ func c08Extract(a vh.Args, o *vh.Oracle, r *vh.Result, rng *vh.Rand) error {
 		r.Note("VH_DESYNC not set: extract cases skipped")
 		return nil
 	}
-	n := 10
+	n := 14
 	if a.Tier == "thorough" {
 		n = 120
 	}
 	for i := 0; i < n; i++ {
 		blobLen := []int{3000, 20000, 60000}[rng.Intn(3)]
 		c := &c08Case{Kind: []string{"extract-kill", "extract-inplace"}[i%2], BlobLen: blobLen, N: []int{1, 2, 8}[rng.Intn(3)],
-			Seed: rng.U64() % 1000000}
+			Seed: (rng.U64()%500000)<<1 | uint64(i/2%2)} // the parity picks absent/empty (in place), existing/absent (temp file)
 		// the kill point: anywhere among the roughly blobLen/200 chunk requests, sometimes beyond the end
 		c.K = 1 + rng.Intn(blobLen/200+3)
 		if i == 0 {
 			c.K = 1
+		}
+		if i == 1 { // in place, target absent, killed well into the download
+			c.K = blobLen/400 + 2
 		}
 		if err := c08ExtractCase(a, r, c); err != nil {
 			return err
